@@ -29,34 +29,49 @@ ID = "C12"
 LEVEL = "exploration"
 TECHNIQUE = "crash / internal_error / diagnostic well-formedness observation on fuzzed programs + in-situ show_error contract + value-API no-raise"
 RULE = (
-    "program case = one generated module (weighted random derivation over decorators, classes with bases/metaclass/"
-    "properties/__slots__, dataclasses, enums, NamedTuple/TypedDict/Protocol, nested defs, lambdas, 4 comprehension "
-    "kinds with nested if/walrus/async for, star-expressions in calls/displays/targets/subscripts, f-strings with "
-    "nested specs and '=', match with every pattern kind, async def/await/async for/async with, generators/yield "
-    "from, global/nonlocal, del, chained comparisons, slices with steps, augmented assignment to attributes/"
-    "subscripts, try/except*, multi-item with, PEP 695 type aliases and type parameters, odd/invalid annotations, "
-    "deliberately ill-typed operations; random part <= ~60 statement/expression nodes) checked under 3 configurations "
-    "(test defaults, every code enabled, annotate=True); a deterministic regression corpus is checked first. "
-    "Non-trivial = generated part has >= 8 distinct AST node types and the check produced >= 1 diagnostic or the "
-    "part has >= 40 nodes; distinct by AST-node-type multiset of the generated part. Value-API case = one call of "
-    "can_assign/is_assignable/can_overlap/unite_values/substitute_typevars/str/hash/simplify on values of a pool "
-    "(vp.valuegen core + random) or type_from_runtime/type_from_ast on an annotation built from a small vocabulary."
+    "program case = one module checked under 3 configurations (test defaults, every code enabled, annotate=True). "
+    "Deterministic part (same for every seed): a regression corpus of minimal programs (one per mechanism found so far) "
+    "and vocabulary sweeps - every annotation of the vocabulary (incl. strings, forward references, Annotated, star/"
+    "Unpack, Callable[..., X], odd Literals, Final/ClassVar, bare special forms, non-type expressions) in every "
+    "annotation position (parameter kinds, return, local/attribute/class/module AnnAssign, cast/assert_type, PEP 695 "
+    "alias and bound, dataclass/TypedDict/NamedTuple field, quoted); a parameter of every annotation used in ~95 ways "
+    "(conditions, calls, subscripts, operators, unpacking, iteration, with, match, f-strings, await/yield); every "
+    "ill-typed expression in every expression position; every ill-typed statement inside every compound statement; "
+    "odd signatures; PEP 695 type-parameter lists. Random part: weighted random derivations (random part <= ~60 "
+    "statement/expression productions) over decorators, classes with bases/metaclass keywords/properties/__slots__, "
+    "dataclasses, enums, NamedTuple/TypedDict/Protocol, nested defs, lambdas, the 4 comprehension kinds with nested "
+    "if/walrus/async for, star-expressions in calls/displays/targets/subscripts, f-strings with nested specs and '=', "
+    "match with every pattern kind, async def/await/async for/async with, generators/yield from, global/nonlocal, del, "
+    "chained comparisons, slices with steps, augmented assignment to attributes/subscripts, try/except*, multi-item "
+    "with, PEP 695, odd layouts (form feed, no trailing newline, non-ASCII, continuation lines), ill-typed code; plus "
+    "the shared ill-typed / annotated-program generators (10 % each). Non-trivial = the generated part has >= 8 "
+    "distinct AST node types and the check produced >= 1 diagnostic or the part has >= 40 nodes; distinct by "
+    "AST-node-type multiset of the generated part. CLI: ~20 generated files per shard through `python -m pyanalyze`, "
+    "a CLI regression list, and one constant-folding termination probe under RLIMIT_CPU. Value-API case = one call of "
+    "can_assign/is_assignable/can_overlap(3 modes)/unite_values/==/substitute_typevars/str/repr/hash/simplify on "
+    "values of a pool (vp.valuegen core + random; all ordered pairs, sampled triples, deeper random values) or "
+    "type_from_runtime (string / object, with and without allow_unpack) / type_from_ast on an annotation (every form "
+    "x every atom, then random combinations)."
 )
 ASSUMPTIONS = [
-    "a module is in scope iff CPython compiles it and importing it (pyanalyze's own make_module) raises nothing; others are discarded and counted",
+    "a module is in scope iff CPython compiles it and importing it raises nothing; others are discarded and counted. The import is analysis_lib.make_module "
+    "except that the module is registered in sys.modules while its body runs (as for a real import; needed by dataclasses/typing to resolve string annotations)",
     "lines are CPython's physical lines (split at \\n, \\r\\n, \\r); the column is accepted up to the UTF-8 byte length of the line (ast col_offset is a byte offset)",
+    "beyond the statement's four clauses one rendering clause is checked: the context printed with a diagnostic contains the reported line and the caret sits under the column",
     "internal_error diagnostics are attributed to the innermost frame inside the pyanalyze package found in the traceback text pyanalyze itself embeds in the message",
     "hash() raising TypeError is excused only for values that wrap an unhashable Python object (by construction of the spec)",
     "Checker() with default options is the CanAssignContext of the value-API half",
     "the shared Checker is reused across programs of a worker (as the CLI does across files); every reported witness is re-confirmed with a fresh Checker",
+    "the generator never produces `**` with a computed exponent: pyanalyze evaluates operators on literal operands inside C code where an in-process monitor cannot "
+    "interrupt it; unbounded constant folding is observed by a separate probe in a subprocess under RLIMIT_CPU (CPU seconds, not wall-clock)",
 ]
 FLOORS = {
-    "quick": {"distinct_nontrivial": 1500, "programs_checked": 2500, "program_checks": 8000, "diagnostics_checked": 60000,
-              "contract_evaluations": 60000, "value_api_calls": 150000, "cli_runs": 100, "annotation_conversions": 3000,
-              "regression_programs": 1},
-    "thorough": {"distinct_nontrivial": 15000, "programs_checked": 30000, "program_checks": 90000, "diagnostics_checked": 600000,
-                 "contract_evaluations": 600000, "value_api_calls": 1000000, "cli_runs": 300, "annotation_conversions": 20000,
-                 "regression_programs": 1},
+    "quick": {"distinct_nontrivial": 4500, "programs_checked": 3400, "program_checks": 10000, "diagnostics_checked": 450000,
+              "contract_evaluations": 1000000, "value_api_calls": 800000, "cli_runs": 160, "annotation_conversions": 15000,
+              "regression_programs": 20, "sweep_programs": 420, "termination_probes": 1, "cli_regression_programs": 2},
+    "thorough": {"distinct_nontrivial": 15000, "programs_checked": 20000, "program_checks": 60000, "diagnostics_checked": 2500000,
+                 "contract_evaluations": 5000000, "value_api_calls": 3000000, "cli_runs": 320, "annotation_conversions": 60000,
+                 "regression_programs": 20, "sweep_programs": 420, "termination_probes": 1, "cli_regression_programs": 2},
 }
 NSHARDS = 16
 WATCHDOG_S = {"quick": 1500, "thorough": 7200}
@@ -203,13 +218,13 @@ _PKG = os.sep + "pyanalyze" + os.sep
 
 def _frame_key(frames, exc_name: str = ""):
     """frames: [(file, lineno, func)] outermost first -> ('module:function', 'file:line') of the innermost pyanalyze frame.
-    For RecursionError the innermost frame is wherever the stack happened to run out: the most frequent pyanalyze frame of
-    the cycle is used instead."""
+    For RecursionError the innermost frame is wherever the stack happened to run out: the alphabetically first member of
+    the recursion cycle (= the pyanalyze frames that occur at least half as often as the most frequent one) is used."""
     if exc_name == "RecursionError":
         cnt = collections.Counter((f, fn) for f, _l, fn in frames if _PKG in f and os.sep + "vp" + os.sep not in f)
         if cnt:
             top = max(cnt.values())
-            file, func = sorted(k for k, v in cnt.items() if v == top)[0]
+            file, func = sorted((os.path.basename(k[0]), k[1], k) for k, v in cnt.items() if v * 2 >= top)[0][2]
             lineno = next(l for f, l, fn in frames if (f, fn) == (file, func))
             frames = [(file, lineno, func)]
     for file, lineno, func in reversed(frames):
@@ -876,7 +891,7 @@ def wraps_unhashable(spec) -> bool:
 def value_key(op: str, exc: BaseException, specs) -> tuple:
     where, fileline = _frame_key(frames_of_exc(exc), type(exc).__name__)
     user = any(os.sep + "vp" + os.sep in fs.filename for fs in traceback.extract_tb(exc.__traceback__)[-1:])
-    key = f"value-api|{op}|{type(exc).__name__}|{where}" + ("|raised-by-wrapped-object's-own-method" if user else "")
+    key = f"value-api|{type(exc).__name__}|{where}" + ("|raised-by-wrapped-object's-own-method" if user else "")
     return key, fileline
 
 
@@ -1011,7 +1026,7 @@ ANN_FORMS = [
     "Iterable[{0}]", "Awaitable[{0}]", "Generator[{0}, {1}, None]", "AsyncIterator[{0}]", "ContextManager[{0}]", "frozenset[{0}]", "set[{0}]", "Set[{0}]",
     "collections.abc.Sequence[{0}]", "collections.OrderedDict[{0}, {1}]", "collections.defaultdict[{0}, {1}]", "list[list[{0}]]", "dict[str, list[{0}]]",
     "Optional[Callable[..., {0}]]", "Union[{0}, {1}, None]", "Annotated[Optional[{0}], 'm']", "list[Annotated[{0}, 1]]", "type[type[{0}]]", "type[{0} | {1}]",
-    "Union[type[{0}], type[{1}]]", "Literal[{0}, {1}]", "P.args", "P.kwargs", "Unpack[TD]", "Unpack[Ts]", "Gen[{0}][{1}]" if False else "Gen[Gen[{0}]]",
+    "Union[type[{0}], type[{1}]]", "Literal[{0}, {1}]", "P.args", "P.kwargs", "Unpack[TD]", "Unpack[Ts]", "Gen[Gen[{0}]]",
     "dataclasses.InitVar[{0}]", "ForwardRef('{0}')", "ForwardRef('list[{0}]')", "TypeVar('V', bound={0})", "NewType('X', {0})",
 ]
 
@@ -1023,11 +1038,22 @@ def annotation_phase(ctx) -> None:
     ns = {}
     exec(ANN_NS_SRC, ns)
     n = ctx.pick(300, 3000)
+    # deterministic part: every form with every atom (both holes the same atom), then random combinations
+    cases = []
+    idx = 0
+    for form in ANN_FORMS:
+        for atom in (ANN_ATOMS if "{0}" in form else ANN_ATOMS[:1]):
+            idx += 1
+            if ctx.mine(idx):
+                cases.append((form, atom, atom))
+    ctx.count("annotation_sweep_cases", len(cases))
     for _ in range(n):
         form = rng.choice(ANN_FORMS)
         a0, a1 = rng.choice(ANN_ATOMS), rng.choice(ANN_ATOMS)
         if rng.random() < 0.25:
             a0 = rng.choice(ANN_FORMS).format(rng.choice(ANN_ATOMS[:20]), rng.choice(ANN_ATOMS[:20]))
+        cases.append((form, a0, a1))
+    for form, a0, a1 in cases:
         text = form.format(a0, a1)
         ctx.count("evaluations")
         ctx.nontrivial(("ann", text))
@@ -1059,7 +1085,7 @@ def annotation_phase(ctx) -> None:
                         ctx.count("hash_typeerror_on_converted_annotation")
                         continue
                     where, fileline = _frame_key(frames_of_exc(e), type(e).__name__)
-                    key = f"value-api|{op}-of-converted-annotation|{type(e).__name__}|{where}"
+                    key = f"value-api|{type(e).__name__}|{where}"
                     ctx.violation(key, f"{op}(type_from_runtime({text})) raised {type(e).__name__}: {str(e)[:200]} at {fileline}",
                                   {"kind": "annotation", "op": op, "text": text, "expect": key})
 
@@ -1074,7 +1100,7 @@ def annotation_call(ctx, op: str, fn, text: str):
         raise
     except BaseException as e:  # noqa: BLE001
         where, fileline = _frame_key(frames_of_exc(e), type(e).__name__)
-        key = f"value-api|{op.split('[')[0]}|{type(e).__name__}|{where}"
+        key = f"value-api|{type(e).__name__}|{where}"
         ctx.violation(key, f"{op}({text!r}) raised {type(e).__name__}: {str(e)[:200]} at {fileline}",
                       {"kind": "annotation", "op": op, "text": text, "expect": key})
         return None
@@ -1143,7 +1169,7 @@ def replay(witness):
                     run_value_op(op, [res], None, None)
                 except BaseException as e:  # noqa: BLE001
                     where, fileline = _frame_key(frames_of_exc(e), type(e).__name__)
-                    ctx.violation(f"value-api|{op}-of-converted-annotation|{type(e).__name__}|{where}", f"{op} raised {e!r} at {fileline}", witness)
+                    ctx.violation(f"value-api|{type(e).__name__}|{where}", f"{op} raised {e!r} at {fileline}", witness)
     if not ctx.violations:
         return None
     expect = witness.get("expect")
